@@ -63,12 +63,14 @@ PROPS["C03"] = {
             {"name": "lexer", "run": "^TestLexerNeverPanics$", "checks": 64000, "shards": 4},
             {"name": "parser", "run": "^TestParserAccounting$", "checks": 16000, "shards": 6},
             {"name": "http", "run": "^TestHTTPIngestion$", "checks": 12000, "shards": 5},
+            {"name": "wire", "run": "^TestHTTPWire$", "checks": 4000, "shards": 4},
         ],
         "thorough": [
             {"name": "seeds", "kind": "plain", "run": "^(TestDatagramSeeds|TestHeaderBoundaryPairs)$"},
             {"name": "lexer", "run": "^TestLexerNeverPanics$", "checks": 1600000, "shards": 5, "timeout": 1700},
             {"name": "parser", "run": "^TestParserAccounting$", "checks": 400000, "shards": 6, "timeout": 1700},
             {"name": "http", "run": "^TestHTTPIngestion$", "checks": 200000, "shards": 5, "timeout": 1700},
+            {"name": "wire", "run": "^TestHTTPWire$", "checks": 120000, "shards": 6, "timeout": 1700},
             {"name": "fuzz-datagram", "kind": "fuzz", "fuzz": "FuzzDatagram", "time": "180s", "timeout": 500},
             {"name": "fuzz-http-raw", "kind": "fuzz", "fuzz": "FuzzHTTPRaw", "time": "120s", "timeout": 500},
             {"name": "fuzz-http-event", "kind": "fuzz", "fuzz": "FuzzHTTPEvent", "time": "120s", "timeout": 500},
